@@ -15,6 +15,9 @@ def trait_methods(path):
         out.append((m.group(1), m.group(2), m.group(3)))
     return out
 
+def snake(op):
+    return re.sub(r'(?<!^)([A-Z])', r'_\1', op).lower()
+
 def analyse(ctx):
     if "call" in ctx.get("_cache", {}): return ctx["_cache"]["call"]
     repo = ctx["repo"]
@@ -124,7 +127,24 @@ def extract_specs(name, ctx):
                    f"        #[verifier::external_body]\n        pub fn serialize_http(x: {x}Output) -> (r: S3Result<http::Response>)\n"
                    f"            ensures r == Self::spec_ser(x), r matches Err(e) ==> err_from(e, ErrSrc::Encode),\n        {{ unimplemented!() }}\n")
             if x in SPECIAL:
-                specs.append({"id": f"shim_{x}", "text": pre.rstrip("\n") + "\n    }"})
+                # the call body wraps the backend call in an `async move` block handed to the keep-alive body: that block (from the
+                # backend call to its end) is extracted as a statement range and wrapped in a function over its free variables
+                T = f"S3Response<{x}Output>"
+                wrapper = (f"        pub fn keep_alive_future_body(s3: &S3Backend, s3_req: S3Request<{x}Input>) -> (ret: S3Result<http::Response>)\n"
+                           f"            requires\n                approved(s3_req) || s3.unguarded(),\n                s3_req.credentials == s3.identity(),\n"
+                           f"            ensures\n"
+                           f"                //# C03:cmu.future.ok_is_the_encoded_output_with_the_backends_headers\n"
+                           f"                ret matches Ok(resp) ==> (exists|v: {T}| #[trigger] backend_ok(OpId::{x}, v) && {x}::spec_ser(v.output) is Ok\n"
+                           f"                    && resp.headers == hm_extend({x}::spec_ser(v.output)->Ok_0.headers, v.headers) && resp.status == {x}::spec_ser(v.output)->Ok_0.status && resp.body == {x}::spec_ser(v.output)->Ok_0.body)\n"
+                           f"                    || (exists|e: S3Error| #[trigger] backend_err(OpId::{x}, e) && spec_serialize_error(e, true) == Ok::<http::Response, S3Error>(resp)),\n"
+                           f"                //# C04,C03:cmu.future.a_backend_error_is_rendered_without_a_second_xml_declaration\n"
+                           f"                (forall|v: {T}| !#[trigger] backend_ok(OpId::{x}, v)) ==> (exists|e: S3Error| #[trigger] backend_err(OpId::{x}, e) && ret == spec_serialize_error(e, true)),\n"
+                           f"                //#-\n")
+                specs.append({"id": f"shim_{x}", "text": pre.rstrip("\n") + "\n" + wrapper + "        {"})
+                specs.append({"id": f"future_{x}", "file": "crates/s3s/src/ops/generated.rs", "item": f"impl super::Operation for {x}/fn call",
+                              "from": f"let result = s3.{snake(x)}(s3_req).await;", "until": "}; let mut resp = http::Response::with_status(http::StatusCode::OK);",
+                              "rewrites": "async,subst:.map_err(Into::into)=>"})
+                specs.append({"id": f"shimclose_{x}", "text": "        }\n    }"})
                 continue
             specs.append({"id": f"call_{x}", "file": "crates/s3s/src/ops/generated.rs", "item": f"impl super::Operation for {x}/fn call",
                           "rewrites": "attr,async,ret", "wrap": pre.rstrip("\n")})
